@@ -56,6 +56,11 @@ class CHECK(Check):
                 yield {"fam": fam, "binary": False, "enc": enc,
                        "content": "".join({"register": "R " + (w + str(i))[:10], "block": ("BEGIN " if i % 3 == 0 else "") + w + (" END" if i % 3 == 2 else ""), "section": w + str(i)}[fam] + "\n"
                                           for i in range(nrec))}
+        # content that merely NAMES an existing file (plus a line end / blanks) is content, not a path
+        for fam in families.FAMILIES:
+            for enc in ENCODINGS:
+                for shape in ("{OTHER}\n", "  {OTHER}\n", "{OTHER} \n", "{OTHER}\n{OTHER}\n"):
+                    yield {"fam": fam, "binary": False, "enc": enc, "content": shape, "names_file": True}
         n = 1500 if tier == "quick" else 20000
         for _ in range(n):
             fam = rng.choice(families.FAMILIES)
@@ -85,6 +90,11 @@ class CHECK(Check):
         p_in = os.path.join(TMP, "in.dat")
         p_out = os.path.join(TMP, "out.dat")
         content = case["content"].encode("latin-1") if binary else case["content"]
+        if case.get("names_file"):
+            other = os.path.join(TMP, "other.dat")
+            with builtins.open(other, "w", encoding=enc) as fh:
+                fh.write({"register": "R zzz\n", "block": "BEGIN zzz END\n", "section": "zzz\n"}[fam])
+            content = content.replace("{OTHER}", other)
         seen = []
         real_open = builtins.open
 
@@ -133,6 +143,9 @@ class CHECK(Check):
         finally:
             builtins.open = real_open
             shutil.rmtree(TMP, ignore_errors=True)
+
+    def comparable(self, case):
+        return not case.get("names_file")     # the content depends on the scratch directory: judged by the oracle only
 
     def model_arg(self, case):
         return [ENCODINGS.index(case["enc"]), "" if case["binary"] else case["content"]]
